@@ -82,6 +82,9 @@ def xspace_error(xs, w, delta):
     n = len(xs)
     p = (np.arange(1, n + 1) - 0.5) / n
     keep = xs != 0
+    with np.errstate(all="ignore"):
+        if not np.all(np.isfinite(np.log10(-np.log(1 - p[keep] ** (1 / delta))))):
+            return None     # the plotting positions are not representable at this delta (tiny samples, extreme delta)
     alpha, beta = ref_alpha_beta(xs, w, delta)
     xhat = alpha * (-np.log(1 - p[keep] ** (1 / delta))) ** (1 / beta)
     ww = w[keep] / np.sum(w[keep])
@@ -147,6 +150,8 @@ def run_case(case):
                 e0 = xspace_error(xs, wref, d)
                 for h in (1e-2, -1e-2, 3e-2, -3e-2):
                     e1 = xspace_error(xs, wref, d * (1 + h))
+                    if e0 is None or e1 is None:
+                        continue
                     if not e0 <= e1 * (1 + 1e-6) + 1e-300:
                         bad("delta_not_local_minimiser", {"order": how, "delta": d, "err": e0, "h": h, "err_at_h": e1})
                         break
@@ -183,5 +188,10 @@ def main(ctx):
                                       "delta": delta, "method": method})
                         ctx.axis("wspec", wspec)
                         ctx.axis("delta", "free" if delta is None else delta)
+    # every sample size from 5 to 64 (a defect tied to particular n, e.g. odd sizes or multiples)
+    for n in range(5, 65):
+        for wspec, delta in (("none", 2.35), ("quadratic", 2.35), ("arr_irregular", 1.0), ("quadratic", None)):
+            cases.append({"src": "ew", "n": n, "zeros": n % 3 == 0 and 1 or 0, "ties": n % 2 == 0, "wspec": wspec, "scale": 7.0,
+                          "delta": delta, "method": "wlsq"})
     cases.sort(key=lambda c: -c["n"])
     ctx.pmap(cases, chunksize=8, label="ewlsq")
